@@ -5,10 +5,34 @@ props = [json.loads(l) for l in open('/verif/properties.jsonl')]
 ids = [p['id'] for p in props]
 
 CHECKS = {
+ 'C01': dict(level='exploration', ref='DESIGN.md §2 C01',
+   technique='property-based testing: generated block trees x arrival schedules on real nodes, reference-model oracle (heaviest valid chain, monotone tip, orphan accounting), permutation metamorphism, node-thread panic recorder',
+   text='Random block trees (forks, epoch-boundary difficulty changes, uncles, commits, contextually/structurally invalid blocks) are built by an independent reference model and delivered to fresh real nodes under generated arrival orders (out-of-order, duplicates, sync submit pipeline or async bursts); after every burst a FIFO barrier and the oracle. Exploration is the right level: the quantifier (trees x permutations x interleavings) is unbounded and only sampled; thread interleavings are not owned by the harness.',
+   note='Trusts the reference model (validated by the unchanged node accepting every model-built block) and ckb-types data structures/hashing (C15). Header-level checks for async deliveries are assumed done by the sender as in the real node.'),
+ 'C05': dict(level='exploration', ref='DESIGN.md §2 C05',
+   technique='metamorphic property-based testing: one-shot script run vs chunked / resumed / signalled runs over generated RV64 programs and repository test binaries, exhaustive split-point sweeps for small programs',
+   text='Programs (repository spawn/exec/load binaries driven by generated data, plus generated C programs compiled to RV64 at check time) are run once with an unlimited budget and then under generated chunk schedules, state resumes, complete() and pause/resume/stop signals and budgets around the exact cost; verdict and cycles must agree. Small programs get every split point (and every pair for tiny ones).',
+   note='Signal timing is real time (tokio); the oracle is timing-independent. Five genuine defects are tolerated as known findings so the search continues behind them.'),
+ 'C07': dict(level='exploration', ref='DESIGN.md §2 C07',
+   technique='property-based testing against an exact big-integer model of the RFC 0020 formulas; exhaustive enumeration of compact exponents x sampled mantissas',
+   text='Pure arithmetic inputs (epoch statistics incl. degenerate ones, compact encodings, remainders) are evaluated by the code and by an exact arbitrary-precision model written in the harness; bounds, formulas, bookkeeping, issuance sums, compact/difficulty consistency, PoW acceptance and epoch-successor logic are compared.',
+   note='Exact agreement is demanded only where the RFC intermediates fit the 256-bit arithmetic the code documents; beyond that only no-panic/bounds (labelled extreme-domain).'),
  'C09': dict(level='fault_enumeration', ref='DESIGN.md §2 C09',
    technique='property-based testing (proptest operation histories) with enumerated crash states against a Vec<Vec<u8>> reference model',
    text='Generated append/truncate/retrieve/sync/reopen histories over FreezerFiles with tiny file-size limits; for every history the crash states of the un-synced tail (head data file x index cut independently to every length, missing/empty head file) are enumerated (exhaustively when the product is small), each re-opened and compared item by item with a Vec model, then used further and re-opened again. Fault enumeration is the right level because the crash-state space per history is finite and small while the history space is sampled.',
    note='Crash model is the statement\'s: byte-prefix cuts of the two files written since the last sync; no torn sectors. tmpfs scratch directory (fsync is a no-op there).'),
+ 'C15': dict(level='exploration', ref='DESIGN.md §2 C15',
+   technique='schema-driven property-based testing: independent molecule interpreter (generator + strict/compatible verifier) vs generated code, JSON round trips, hash-commitment mutation relations',
+   text='A parser/interpreter of the repository .mol schemas written in the harness generates values and canonical bytes for all 127 types and decides canonicity of arbitrary/mutated bytes; the generated Rust types must agree. JSON conversions round-trip, and hash commitments are checked by single-field mutations against hashes recomputed from the documented definitions.',
+   note='blake2b and the merkle definition are recomputed in the harness; value sizes are bounded (tens of kB).'),
+ 'C16': dict(level='exploration', ref='DESIGN.md §2 C16',
+   technique='fuzzing (libFuzzer in the thorough tier) and structure-aware property-based testing of frame/message decoding with panic and bound oracles; model-based testing of compact-block reconstruction on a real node',
+   text='Random bytes and structure-aware mutations of valid protocol messages go through decompression, decoding, every accessor/conversion/hash and the context-free verifiers under catch_unwind with size-bound checks; compact-block reconstruction is driven on a real node with generated pools, prefilled sets, twins and replies and compared with a model (exact block, exact missing report, or collision/error).',
+   note='The relay handlers are mirrored call by call (no CKBProtocolContext mock). The quick tier is proptest only; the libFuzzer campaign needs a nightly cold build and runs in the thorough tier.'),
+ 'C17': dict(level='exploration', ref='DESIGN.md §2 C17',
+   technique='model-based property testing with bounded-exhaustive operation sequences (orphan pool, in-flight table, header map) and random sequences beyond; skip-list ancestors vs naive parent walk',
+   text='Each structure is driven by generated and exhaustively enumerated short operation sequences against a simple mathematical model (set of (hash,parent), per-peer map, HashMap, parent-pointer walk), compared after every operation; locator/ancestor queries also on a real node.',
+   note='Exhaustive parts cover sequences up to length 6 over 4 hashes / 2 peers; spills are placed between operations as the statement says (concurrent spills are outside the quantifier).'),
 }
 NOT_YET = 'check not built yet in this round (see DESIGN.md §5 build order); no claim is made'
 
